@@ -125,7 +125,7 @@ pub fn payload_class(rng: &mut Rng, class: u32, size: usize) -> Vec<u8> {
 fn rand_sample(rng: &mut Rng, depth: u32) -> Sample {
     let s = |rng: &mut Rng| -> String {
         let n = rng.below(12) as usize;
-        (0..n).map(|_| *rng.pick(&['a', 'Z', '0', ' ', 'é', '中', '\0', '\n', '💥'])).collect()
+        (0..n).map(|_| *rng.pick(&['a', 'Z', '0', ' ', 'é', '中', '\0', '\n', '💥', '\u{feff}', '\u{fffe}', '\r', '\u{301}'])).collect()
     };
     let mut map = HashMap::new();
     for _ in 0..rng.below(4) {
@@ -328,7 +328,18 @@ pub fn run(rep: &mut StageReport, tier: &str, seed: u64) {
                     }
                     1 => {
                         let n = rng.below(40) as usize;
-                        let s: String = (0..n).map(|_| char::from_u32(rng.below(0x11_0000) as u32).unwrap_or('x')).collect();
+                        let mut s: String = (0..n).map(|_| char::from_u32(rng.below(0x11_0000) as u32).unwrap_or('x')).collect();
+                        // characters that text-handling code likes to treat specially, at the start / end / inside
+                        const SPECIAL: &[char] = &['\u{feff}', '\u{fffe}', '\u{0}', ' ', '\t', '\n', '\r', '\u{a0}', '\u{2028}', '\u{200b}', '\u{301}', '\u{d7ff}', '\u{e000}', '\u{fffd}', '\u{ffff}', '\u{10000}', '\u{10ffff}', '\u{7f}', '\u{80}', '\u{7ff}', '\u{800}', '"', '\\', '\u{1b}'];
+                        match rng.below(4) {
+                            0 => s.insert(0, *rng.pick(SPECIAL)),
+                            1 => s.push(*rng.pick(SPECIAL)),
+                            2 => {
+                                s.insert(0, *rng.pick(SPECIAL));
+                                s.push(*rng.pick(SPECIAL));
+                            }
+                            _ => {}
+                        }
                         h.s(&s);
                         let c = StringCodec;
                         let e = c.encode(s.clone()).map_err(|e| Viol("codec/string-encode".into(), e.to_string()))?;
